@@ -365,6 +365,18 @@ pub fn hermes_rewrite() -> Report {
             return r("hermes_rewrite", bound, cases, Some(format!("Hermes map with {nfm} function maps for 3 sources, token on source {used}: rewrite {p}")));
         }
     } }
+    // fewer function maps than sources, several sources used in an order other than the listing order: every token keeps its enclosing function (or its lack of one)
+    for nfm in 0..=2usize { for order in [vec![2u32, 0], vec![1, 0], vec![2, 1, 0], vec![0, 2]] {
+        cases += 1;
+        let fms: Vec<String> = (0..nfm).map(|i| format!(r#"[{{"names":["f{i}"],"mappings":"AAA"}}]"#)).collect();
+        let toks: Vec<_> = order.iter().enumerate().map(|(k, &s)| (0u32, (k * 4) as u32, Some((s, 0u32, 1u32)), None)).collect();
+        let json = format!(r#"{{"version":3,"sources":["a","b","c"],"names":[],"mappings":"{}","x_facebook_sources":[{}]}}"#, mappings(&toks), fms.join(","));
+        let smh = match SourceMapHermes::from_slice(json.as_bytes()) { Ok(m) => m, Err(_) => continue };
+        let before: Vec<(u32, String, Option<String>)> = smh.tokens().map(|t| (t.get_dst_col(), t.get_source().unwrap_or("").to_string(), smh.get_scope_for_token(t).map(|s| s.to_string()))).collect();
+        let out = match guarded(|| smh.rewrite(&RewriteOptions::default())) { Ok(Ok(m)) => m, o => return r("hermes_rewrite", bound, cases, Some(format!("rewrite failed: {:?}", o.map(|x| x.map(|_| ()))))) };
+        let after: Vec<(u32, String, Option<String>)> = out.tokens().map(|t| (t.get_dst_col(), t.get_source().unwrap_or("").to_string(), out.get_scope_for_token(t).map(|s| s.to_string()))).collect();
+        if before != after { return r("hermes_rewrite", bound, cases, Some(format!("Hermes map with {nfm} function maps for sources [a, b, c], tokens using sources {order:?} in turn: (column, source, function) before {before:?} after {after:?}"))); }
+    } }
     r("hermes_rewrite", bound, cases, None)
 }
 
